@@ -358,3 +358,64 @@ def run_conv(seed, n, model_exe):
         if " ".join(mo.split()) != " ".join(got.split()):
             dis.append({"layer": "L1-term-conversion", "text": "&tel { w(" + text + ") }.", "model": mo, "impl": got})
     return {"theory_terms": len(texts), "outcomes": stats}, dis
+
+
+# ---- transformers/head.py: get_variables vs `getVariables`
+
+def gen_vform(r, depth=2):
+    """text of a head formula with variables in atom arguments and n-fold prefixes"""
+    V = ["X", "Y", "Z", "_A", "Ab", "X1", "Xa", "x"]
+    def arg():
+        k = r.random()
+        if k < 0.45:
+            return r.choice(V)
+        if k < 0.6:
+            return "{} {} {}".format(r.choice(V), r.choice(["+", "-"]), r.choice(["1", "2", r.choice(V)]))
+        if k < 0.75:
+            return "f({},{})".format(r.choice(V + ["a", "1"]), r.choice(V + ["b"]))
+        if k < 0.85:
+            return "({},{})".format(r.choice(V), r.choice(V + ["1"]))
+        return r.choice(["a", "1", "\"s\""])
+    def atom():
+        n = r.randint(0, 3)
+        return r.choice(["p", "q", "-p"]) + ("({})".format(", ".join(arg() for _ in range(n))) if n else "")
+    k = r.random()
+    if depth == 0 or k < 0.3:
+        return atom()
+    if k < 0.5:
+        return "{} {} {}".format(gen_vform(r, depth - 1), r.choice(["&", "|", ">?", ">*", ";>"]), gen_vform(r, depth - 1))
+    if k < 0.7:
+        return "{} ({})".format(r.choice([">", ">:", "~", ">?", ">*", ">>"]), gen_vform(r, depth - 1))
+    if k < 0.9:
+        return "{} {} ({})".format(r.choice(V + ["2", "X+1", "Y-Z"]), r.choice([">", ">:"]), gen_vform(r, depth - 1))
+    return "({})".format(gen_vform(r, depth - 1))
+
+def run_vars(seed, n, model_exe):
+    """the real `get_variables` on head theory atoms vs the model's `getVariables`: the same names in the same order"""
+    from clingo import ast
+    import telingo.transformers.head as th
+    r = random.Random(seed)
+    texts, lines, impl = [], [], []
+    skipped = 0
+    for _ in range(n):
+        els = [gen_vform(r) for _ in range(r.choice([1, 1, 1, 2]))]
+        text = "&tel {{ {} }} :- dom(X).".format("; ".join(els))
+        holder = []
+        try:
+            ast.parse_string(text, holder.append)
+            atom = holder[1].head
+            hs = ("t",) + tuple(hterm_sexp(el.terms[0]) for el in atom.elements)
+            got = [str(v) for v in th.get_variables(atom)]
+        except (RuntimeError, ValueError, IndexError, AttributeError):
+            skipped += 1
+            continue
+        texts.append(text); lines.append(tl.sexp(("getvars", hs))); impl.append(got)
+    outs = model_exe.batch(lines)
+    dis = []
+    hist = {}
+    for text, mo, got in zip(texts, outs, impl):
+        hist[len(got)] = hist.get(len(got), 0) + 1
+        want = "(" + " ".join(tl.sexp(tl.QStr(v)) for v in got) + ")"
+        if " ".join(mo.split()) != want:
+            dis.append({"layer": "L1-head-variables", "text": text, "model": mo, "impl": want})
+    return {"head_atoms": len(texts), "skipped": skipped, "number_of_variables": hist}, dis
